@@ -354,6 +354,12 @@ func (s *tlSys) allowAt(n int, late time.Duration) {
 func (s *tlSys) apply(op string) bool {
 	switch {
 	case strings.HasPrefix(op, "late:"):
+		// (only while the Redis bucket is in charge: what the in-process bucket - an
+		// x/time/rate limiter - makes of a time stamp earlier than its last event is that
+		// library's own, lazily evaluated semantics and not claimed here)
+		if s.rescueMode || !s.up || s.everRescue {
+			return false
+		}
 		var n int
 		fmt.Sscanf(op, "late:%d", &n)
 		s.allowAt(n, time.Second)
